@@ -80,7 +80,29 @@ def may_be_fatal(line):
                                             and preview_ad(d) is None)
 
 
+def relink_if_needed(stage):
+    """automake lists $(ADAPTATION_LIBS) in squid_LDADD but not in squid_DEPENDENCIES: after a change in src/adaptation `make all`
+    rebuilds libadaptation.la and leaves the squid binary alone. A stage with such a change (VERIF_PATCH) must relink explicitly."""
+    src = os.path.join(stage.repo, "src")
+    exe = os.path.join(src, "squid")
+    libs = [os.path.join(src, "adaptation", ".libs", "libadaptation.a"), os.path.join(src, "adaptation", "icap", ".libs", "libicap.a")]
+    try:
+        newest = max(os.path.getmtime(l) for l in libs if os.path.exists(l))
+        if os.path.exists(exe) and newest <= os.path.getmtime(exe):
+            return False
+    except (OSError, ValueError):
+        return False
+    try:
+        os.unlink(exe)
+    except OSError:
+        pass
+    stage.make(targets=("squid",), subdir="src")
+    return True
+
+
 def build(stage):
+    if hasattr(stage, "make"):
+        relink_if_needed(stage)
     return Harness(stage)
 
 
